@@ -42,6 +42,9 @@ let c06 toks =
       let evtoks = take_cfg 0 rest in
       let st = ref (rt_init Z0) in
       let outs = ref [] in
+      Array.iteri (fun k c ->
+        outs := Printf.sprintf "0.cfg:%d:%s:%s:%s:%s:%s" k (zs c.rc_at_ip) (zs c.rc_at_fp)
+                  (zs c.rc_arf_ip) (zs c.rc_arf_fp) (zs c.rc_max) :: !outs) cfgs;
       let last_tick = ref (-1) and last_wait = ref 0 in
       let evi = ref (-1) in
       let step ev =
